@@ -93,7 +93,8 @@ FLOORS = {
               "filter_points:gt50000": 10, "filter_points:gt100000": 7, "filter_points:gt131072": 3, "filter_points:large_not_multiple_of_50000": 10,
               "chain_fit_points:gt50000": 3, "chain_fit_points:gt131072": 1, "chain_predict_points:gt50000": 3, "vector_fit_points:gt50000": 1,
               # documented defaults and weights threaded past weight-ignoring steps / live at reductions
-              "eval:defaults_equal_documented": 25, "defaulted_argument:Chain.fit.weights": 170, "defaulted_argument:BaseGridder.filter.weights": 160,
+              "eval:defaults_equal_documented": 25, "vector_weights_dtype:int_first_mixed:fractional_floats": 10,
+              "vector_weights_dtype:float_first_mixed:fractional_floats": 10, "defaulted_argument:Chain.fit.weights": 170, "defaulted_argument:BaseGridder.filter.weights": 160,
               "weights_threaded_past_weight_ignoring_step:into_weight_using_step": 45, "weights_live_at_reduction:BlockReduce": 50,
               "weights_live_at_reduction:BlockMean": 55},
     "thorough": {"eval:filter": 18500, "eval:chain_fit_order": 9000, "eval:chain_threading": 9000, "eval:conservation_events": 9000,
@@ -114,7 +115,8 @@ FLOORS = {
                  "chain_predict:sum_of_duck_typed_and_other_steps": 4000,
                  "filter_points:gt50000": 85, "filter_points:gt100000": 30, "filter_points:gt131072": 12, "filter_points:large_not_multiple_of_50000": 85,
                  "chain_fit_points:gt50000": 28, "chain_fit_points:gt131072": 4, "chain_predict_points:gt50000": 28, "vector_fit_points:gt50000": 9,
-                 "eval:defaults_equal_documented": 330, "defaulted_argument:Chain.fit.weights": 2500, "defaulted_argument:BaseGridder.filter.weights": 2400,
+                 "eval:defaults_equal_documented": 330, "vector_weights_dtype:int_first_mixed:fractional_floats": 140,
+                 "vector_weights_dtype:float_first_mixed:fractional_floats": 140, "defaulted_argument:Chain.fit.weights": 2500, "defaulted_argument:BaseGridder.filter.weights": 2400,
                  "weights_threaded_past_weight_ignoring_step:into_weight_using_step": 700, "weights_live_at_reduction:BlockReduce": 700,
                  "weights_live_at_reduction:BlockMean": 800},
 }
@@ -945,6 +947,13 @@ def install(tap, run):
         run.count("vector_components:%d" % len(comps))
         count_size("vector_fit", np.size(data[0]))
         run.count("vector_weights:%s" % ("given" if weights is not None else "none"))
+        if weights is not None and len(weights) >= 2:
+            kinds = ["int" if np.asarray(w).dtype.kind in "iub" else "float" for w in weights]
+            if len(set(kinds)) > 1:
+                fractional = any(k == "float" and np.any(np.asarray(w) % 1 != 0) for k, w in zip(kinds, weights))
+                run.count("vector_weights_dtype:%s_first_mixed%s" % (kinds[0], ":fractional_floats" if fractional else ""))
+        if isinstance(data, tuple) and len(set(np.asarray(d).dtype.kind in "iub" for d in data)) > 1:
+            run.count("vector_data_dtype:%s_first_mixed" % ("int" if np.asarray(data[0]).dtype.kind in "iub" else "float"))
         run.seen("vector_shapes", desc)
         if ev.parent is not None:
             run.count("vector_fit:nested")
